@@ -16,13 +16,19 @@ def impl_batch(case):
     from socialchoicekit.randomized_allocation import SimultaneousEating, ProbabilisticSerial
     from socialchoicekit.profile_utils import StrictCompleteProfile
     out = []
+    shared = {}     # rule objects are reused across calls, as a caller would
     for it in case["items"]:
         try:
             prof = StrictCompleteProfile.of(np.array(it["P"], dtype=np.int64))
+            z = it.get("zero", False)
             if it.get("ps"):
-                X = ProbabilisticSerial(zero_indexed=it.get("zero", False)).bistochastic(prof)
+                rule = shared.setdefault(("ps", z), ProbabilisticSerial(zero_indexed=z))
+                X = rule.bistochastic(prof)
             else:
-                X = SimultaneousEating(zero_indexed=it.get("zero", False)).bistochastic(prof, np.array([float(Fraction(s)) for s in it["speeds"]]))
+                rule = shared.setdefault(("se", z), SimultaneousEating(zero_indexed=z))
+                if it.get("pre_speeds"):
+                    rule.bistochastic(prof, np.array([float(Fraction(s)) for s in it["pre_speeds"]]))
+                X = rule.bistochastic(prof, np.array([float(Fraction(s)) for s in it["speeds"]]))
             out.append({"X": [[fr(Fraction(float(x))) for x in row] for row in X]})
         except Exception as e:  # noqa
             out.append({"exc": type(e).__name__, "msg": str(e)[:200]})
@@ -38,7 +44,7 @@ def lean_line(it):
 def judge(R, it, res, ans):
     P, speeds = it["P"], it["speeds"]
     n = len(P)
-    inp = {"P": P, "speeds": speeds, "probabilistic_serial": bool(it.get("ps"))}
+    inp = {"P": P, "speeds": speeds, "probabilistic_serial": bool(it.get("ps")), "pre_speeds": it.get("pre_speeds")}
     if "exc" in res or "hang" in res:
         R.violation("property_violation", "terminates without raising", ENTRY, inp, impl_output=res, oracle="raised/hang")
         return
@@ -122,7 +128,10 @@ def run(R):
             speeds = [str(R.rng.randint(1, 4)) for _ in range(n)]
         else:
             speeds = [R.rng.choice(SPEEDS) for _ in range(n)]
-        items.append({"P": P, "speeds": speeds})
+        it = {"P": P, "speeds": speeds}
+        if R.rng.random() < 0.3:      # the same rule object is first used with other speeds on the same profile
+            it["pre_speeds"] = [R.rng.choice(SPEEDS) for _ in range(n)]
+        items.append(it)
     run_items(R, items)
     if R.thorough:
         R.exhaustive = True
@@ -137,4 +146,4 @@ def run(R):
 
 def replay(R, rep):
     inp = rep["input"]
-    run_items(R, [{"P": inp["P"], "speeds": inp["speeds"], "ps": inp.get("probabilistic_serial", False)}])
+    run_items(R, [{"P": inp["P"], "speeds": inp["speeds"], "ps": inp.get("probabilistic_serial", False), "pre_speeds": inp.get("pre_speeds")}])
